@@ -43,9 +43,15 @@ Cls(o) ==
     \o (IF o.src \in {"pb", "res"} THEN "/fhir" ELSE "")
 OpCls(c) == IF c.op \in BinOps THEN Cls(c.l) \o "," \o Cls(c.r) ELSE Cls(c.l)
 
+DTwo63 == DMake(FALSE, NFromDigits(<<9,2,2,3,3,7,2,0,3,6,8,5,4,7,7,5,8,0,8>>), 0)     \* 2^63
+
+(* what the property demands for the case: a value, empty for a zero divisor, *)
+(* empty for a result that does not fit (for `div` apart: a quotient that     *)
+(* does not even fit 64 bits), an error/empty for a negative precision        *)
 Situation(c, w) ==
   IF c.op \in {"/", "div", "mod"} /\ DIsZero(NumOf(c.r).d) THEN "zero-divisor"
   ELSE IF c.op = "roundp" /\ c.p < 0 THEN "negative-precision"
+  ELSE IF c.op = "div" /\ w.k = "none" /\ DLe(DMul(DTwo63, DAbs(NumOf(c.r).d)), DAbs(NumOf(c.l).d)) THEN "overflow-int64"
   ELSE IF w.k = "none" THEN "overflow"
   ELSE "value"
 
